@@ -49,6 +49,36 @@ thread_local! {
     static ATTR: std::cell::RefCell<Attr> = std::cell::RefCell::new(Attr::default());
     /// exchange index of every instrument index (`init n x` spreads the instruments over x exchanges)
     static EXCHANGE_OF: std::cell::RefCell<Vec<usize>> = const { std::cell::RefCell::new(Vec::new()) };
+    /// CONFIGURATION family (`init n x 1`): the account snapshots of this case (`full` / `empty`) carry
+    /// BALANCES next to the order reports, as an exchange's account snapshot does
+    static SNAPSHOT_BALANCES: std::cell::Cell<bool> = const { std::cell::Cell::new(false) };
+}
+
+/// balances of an account snapshot attributed to exchange `ex`: nothing, or (`init n x 1`) one balance per
+/// asset the engine tracks on that exchange, stamped `stamp` ms
+fn cfg_snapshot_balances(
+    engine: &TestEngine,
+    ex: ExchangeIndex,
+    stamp: i64,
+) -> Vec<barter_execution::balance::AssetBalance<barter_instrument::asset::AssetIndex>> {
+    use barter_execution::balance::{AssetBalance, Balance};
+    if !SNAPSHOT_BALANCES.with(|b| b.get()) {
+        return vec![];
+    }
+    let exchange_id = engine.state.connectivity.exchanges.get_index(ex.0).map(|(id, _)| *id);
+    engine
+        .state
+        .assets
+        .0
+        .keys()
+        .enumerate()
+        .filter(|(_, k)| Some(k.exchange) == exchange_id)
+        .map(|(idx, _)| AssetBalance {
+            asset: barter_instrument::asset::AssetIndex(idx),
+            balance: Balance::new(Decimal::from(1000 + stamp), Decimal::from(900 + stamp)),
+            time_exchange: time_ms(stamp),
+        })
+        .collect()
 }
 
 fn exchange_of(instrument: usize) -> ExchangeIndex {
@@ -238,7 +268,8 @@ fn run() {
         let mut map: Vec<usize> = vec![];
         ATTR.with(|a| *a.borrow_mut() = Attr::default());
         EXCHANGE_OF.with(|e| e.borrow_mut().clear());
-        for op in case.ops.iter() {
+        SNAPSHOT_BALANCES.with(|b| b.set(false));
+        for (op_index, op) in case.ops.iter().enumerate() {
             lines.push("@".into());
             if op[0] == "attr" {
                 let a = parse_attr(&op[1..]);
@@ -253,7 +284,14 @@ fn run() {
                 let n: usize = op[1].parse().unwrap();
                 // `init n x`: instrument label i lives on exchange label i % x (default: one exchange)
                 let x: usize = op.get(2).map(|x| x.parse().unwrap()).unwrap_or(1);
-                assert!((1..=EXCHANGES.len()).contains(&x) && op.len() <= 3, "bad init");
+                // `init n x b`: b = 1: the account snapshots of the case carry balances too
+                assert!(
+                    (1..=EXCHANGES.len()).contains(&x)
+                        && op.len() <= 4
+                        && op.get(3).is_none_or(|b| b == "0" || b == "1"),
+                    "bad init"
+                );
+                SNAPSHOT_BALANCES.with(|b| b.set(op.get(3).is_some_and(|b| b == "1")));
                 let names: Vec<String> = (0..n).map(|i| format!("a{i}")).collect();
                 let defs: Vec<(usize, &str, &str)> =
                     names.iter().enumerate().map(|(i, b)| (i % x, b.as_str(), "usdt")).collect();
@@ -358,11 +396,12 @@ fn run() {
                     }
                     // the event is attributed to the exchange of the first instrument it names
                     let ex = labels.first().map(|l| exchange_of(map[*l])).unwrap_or(ExchangeIndex(0));
+                    let balances = cfg_snapshot_balances(engine, ex, op_index as i64);
                     engine.state.update_from_account(&AccountEvent {
                         exchange: ex,
                         kind: AccountEventKind::Snapshot(AccountSnapshot {
                             exchange: ex,
-                            balances: vec![],
+                            balances,
                             instruments: groups,
                         }),
                     });
@@ -372,11 +411,12 @@ fn run() {
                     // open there): says nothing about any order
                     // the event is attributed to the exchange of the first instrument it names
                     let ex = labels.first().map(|l| exchange_of(map[*l])).unwrap_or(ExchangeIndex(0));
+                    let balances = cfg_snapshot_balances(engine, ex, op_index as i64);
                     engine.state.update_from_account(&AccountEvent {
                         exchange: ex,
                         kind: AccountEventKind::Snapshot(AccountSnapshot {
                             exchange: ex,
-                            balances: vec![],
+                            balances,
                             instruments: op[1..]
                                 .iter()
                                 .map(|l| InstrumentAccountSnapshot {
@@ -523,6 +563,31 @@ fn generate(seed: u64, n_cases: usize, tier: &str) {
                 out.line(gen_attr(&mut rng));
             }
             out.line(gen_dom_op(&mut rng, n, cids, wide_num, wide_time));
+        }
+    }
+    // ---- configuration family (separately seeded, ids cfg<n>; the cases above stay what they were) ----
+    // set-up shapes the families above never assemble: the exchange's account snapshots (`full` / `empty`)
+    // carry BALANCES next to the order reports (`init n x 1`; every snapshot above has `balances: []`), on
+    // 1-4 instruments over 1-3 exchanges, with account snapshots a third of the stream (an exchange that
+    // reports by periodic full snapshots rather than by single order events)
+    let mut rng = Rng::new(seed ^ 0xCF6_C01);
+    for k in 0..n_cases / 8 + 2 {
+        id += 1;
+        out.case(format!("cfg{id}"));
+        let n = rng.range(1, 4) as usize;
+        let x = rng.range(1, 3);
+        out.line(format!("init {n} {x} {}", if k % 4 == 3 { 0 } else { 1 }));
+        let cids = rng.range(1, 3) as u64;
+        let len = rng.range(2, if tier == "thorough" { 40 } else { 25 });
+        for _ in 0..len {
+            let snapshot = rng.chance(35);
+            let line = loop {
+                let o = gen_dom_op(&mut rng, n, cids, false, false);
+                if !snapshot || o.starts_with("full ") || o.starts_with("empty") {
+                    break o;
+                }
+            };
+            out.line(line);
         }
     }
     out.flush();
